@@ -21,8 +21,14 @@ def strategy_(draw, thorough, row_level):
     n = fr["n"]
     if n >= 2 and draw(st.integers(0, 5)) > 0:
         opts["rgo"] = draw(st.integers(1, max(1, n // 2)))
-    if draw(st.integers(0, 2)) == 0:
+    sk = draw(st.integers(0, 5))
+    if sk <= 1:
         opts["stats"] = True          # statistics for text/category columns too
+    elif sk == 2:
+        # statistics for a subset only: chunks with a null count but no min/max next to chunks with bounds
+        opts["stats"] = [c["name"] for c in fr["cols"] if draw(st.booleans())]
+    elif sk == 3:
+        opts["stats"] = "auto"
     if row_level and draw(st.integers(0, 2)) > 0 and not opts.get("page_size"):
         opts["page_size"] = draw(st.sampled_from([16, 24, 32, 64]))
     opts["write_index"] = False
@@ -89,6 +95,11 @@ def _coerce(col, const, case, op="=="):
         return ("fuzzy", const)
     """A text constant against a non-text hive partition column is parsed by the
     library with the column's recorded type; mirror that when it is unambiguous."""
+    if col["kind"] == "datetime" and op in ("in", "not in") and isinstance(const, list):
+        # pandas.isin casts the listed instants to the column's unit (lossy), scalar comparisons do not:
+        # an instant the column's unit cannot hold has no agreed membership -> incomparable (U)
+        u = cases.UNIT_NS[col["unit"]]
+        return [("fuzzy", c) if (isinstance(c, tuple) and c[1] % u) else c for c in const]
     if col["kind"] == "float" and col.get("sub") == "float32":
         # numpy >= 2 compares a float32 value with a Python float in float32 (weak scalar
         # promotion), in pruning and in pandas row filtering alike: the model does the same
